@@ -40,7 +40,7 @@ var Prop = &engine.Prop{
 		"for the proc channel, whether calls accepted before Stop still run after Stop is unspecified (the statement names line, multi-line and runner queue only); only the invariants are judged there after Stop",
 		"a caller whose context is already done when its result is also available may receive either (own result or own context error)",
 	},
-	ShardsQuick: 8, ShardsThorough: 48,
+	ShardsQuick: 8, ShardsThorough: 16,
 	Setup: func(c *engine.Ctx) {
 		// the executors log every shutdown at debug level on stdout: silence the default logger
 		lg := ulog.NewSimpleLogger("error")
